@@ -121,6 +121,10 @@ def pa(e, parent=None, right=False):
             return pe(e)
         if e[0] in ("not", "neg"):
             return pe(e)
+        if e[0] == "or" and right:
+            # `(x) or y` is a postfix form that binds tighter than every binary operator; as a RIGHT operand it needs no parentheses
+            # (as a left operand it would swallow the operator: its fallback is a whole expression)
+            return pe(e)
     return f"({pe(e)})"
 
 
